@@ -338,6 +338,12 @@ pub fn targeted() -> Vec<String> {
         v.push(format!("---\nlocale: {t}\n---\nBatir los @huevos{{3}}.\n"));
         v.push(format!(">> locale: {t}\nx"));
     }
+    // standard keys the textual key scan cannot locate (quoted, complex, tagged, in a flow mapping, in a second document),
+    // with values that are refused or that override each other: diagnostics without a label, rendered too
+    for y in ["\"time\": 1h\nprep time: 10 min", "'time': 1h\ncook time: 5 min\nprep time: 1 min", "? time\n: 1h\nprep time: 10 min", "!!str time: 1h\nprep time: 2 min", "{time: 1h, prep time: 10 min, cook time: 5 min}",
+        "title: Pancakes\n\"servings\": a lot", "'time': soon\n'locale': xx_\n\"tags\": 3", "{servings: many, time: soon}", "? servings\n: x", "title: a\n--- \nservings: 2", "a: &a [*a, *a]\nservings: x", "\"prep time\": 5 min\n\"time\": 1h\n\"cook time\": 1 min"] {
+        v.push(format!("---\n{y}\n---\n\nMix the @flour{{200%g}} with the @water{{100%ml}}.\n"));
+    }
     // empty servings list; more than 7 labels in one diagnostic (one label per `>>` entry)
     v.push("---\nservings: []\n---\nMix @flour{200%g} and @water{1%l}.\n".to_string());
     v.push(">> servings: \n@a{1}".to_string());
